@@ -552,6 +552,11 @@ func (l *Lexer) followsAmountNumber(pos int) bool {
 	if p < 0 {
 		return false
 	}
+	if pos-1-p >= 2 {
+		// Two or more blanks separate an account name from its amount: a digit
+		// before them ends the account ("acct 2  USD5"), it is not a quantity.
+		return false
+	}
 	return l.isDigit(l.input[p])
 }
 
